@@ -118,6 +118,30 @@ def ref_seaweed_growth(inp):
     return 100.0 * (1 + d / 100.0) ** 30
 
 
+def ref_greenhouse(inp, N, iso):
+    """greenhouse output = greenhouse area x (mean monthly crop energy per hectare) x disruption ratio of the year
+    (raised to the relocation exponent when <= 1) x (1 + greenhouse gain) x (1 - distribution waste)(1 - retail waste)"""
+    if not inp["ADD_GREENHOUSES"]:
+        return np.zeros(N)
+    area_total = inp["INITIAL_GLOBAL_CROP_AREA"] * inp["INITIAL_CROP_AREA_FRACTION"]
+    if area_total == 0:
+        return np.zeros(N)
+    m = np.arange(N)
+    seas = [float(x) for x in inp["SEASONALITY"]]
+    R = [None] + [float(inp["RATIO_CROPS_YEAR%d" % y]) for y in range(1, 11)]
+    yr = year_of_month(m)
+    ratio = np.array([year1_ratio(R[1], seas, iso) if y == 1 else R[y] for y in yr], float)
+    ratio = np.where(ratio <= 0, np.round(ratio, 8), ratio)
+    ex = inp["ROTATION_IMPROVEMENTS"]["POWER_LAW_IMPROVEMENT"] if inp["OG_USE_BETTER_ROTATION"] else 1
+    eff = np.where(ratio > 1, ratio, np.power(np.maximum(ratio, 0), ex))
+    annual = inp["BASELINE_CROP_KCALS"] * (1 - 92.0 / 3898.0) * 4e6 / 1e9
+    per_ha = annual * np.mean(seas) / area_total
+    lim = inp["GREENHOUSE_AREA_MULTIPLIER"] * area_total
+    area = np.clip((m - (inp["DELAY"]["GREENHOUSE_MONTHS"] + 5)) / 36.0, 0, 1) * lim
+    waste = (1 - inp["WASTE_DISTRIBUTION"]["CROPS"] / 100.0) * (1 - inp["WASTE_RETAIL"] / 100.0)
+    return area * per_ha * eff * (1 + inp["GREENHOUSE_GAIN_PCT"] / 100.0) * waste
+
+
 def ref_stored_food(inp):
     S = [inp["END_OF_MONTH_STOCKS"][k] for k in ("JAN", "FEB", "MAR", "APR", "MAY", "JUN", "JUL", "AUG", "SEP", "OCT", "NOV", "DEC")]
     start_index = 5 - 1  # May
@@ -244,7 +268,7 @@ def first_round(case):
     else:
         ck.series("outdoor_crops", prod, None, N, data)
     n += 1
-    ck.series("greenhouse_crops", tc["greenhouse_crops"].kcals, None, N, data)
+    ck.series("greenhouse_crops", tc["greenhouse_crops"].kcals, ref_greenhouse(inp, N, iso), N, data)
     ck.series("fish", tc["fish"].to_humans.kcals, ref_fish(inp, tin, N), N, data)
     ck.series("feed_demand", out[4].kcals, ref_demand(inp["FEED_KCALS"], inp["DELAY"]["FEED_SHUTOFF_MONTHS"], N), N, data)
     ck.series("biofuel_demand", out[5].kcals, ref_demand(inp["BIOFUEL_KCALS"], inp["DELAY"]["BIOFUEL_SHUTOFF_MONTHS"], N), N, data)
